@@ -72,3 +72,25 @@ pub proof fn lemma_left_frame(old_b: TransactionBuilder, b: TransactionBuilder, 
     requires left_inv(old_b, b, it, left, fa)
     ensures b == (TransactionBuilder { outputs: b.outputs, ..old_b })
 { reveal(left_inv); }
+
+/// every output from position `from` on was admitted like a requested output: value within the maximum value size, coin at least its own minimum ADA (C07)
+pub open spec fn adm_from(cfg: TransactionBuilderConfig, outs: Seq<TransactionOutput>, from: int) -> bool {
+    forall|k: int| from <= k < outs.len() ==> value_size((#[trigger] outs[k]).amount) <= cfg.max_value_size && outs[k].amount.coin.0 >= spec_min_ada(outs[k], cfg.data_cost)
+}
+pub proof fn lemma_adm_push(cfg: TransactionBuilderConfig, outs: Seq<TransactionOutput>, from: int, o: TransactionOutput)
+    requires adm_from(cfg, outs, from), value_size(o.amount) <= cfg.max_value_size, o.amount.coin.0 >= spec_min_ada(o, cfg.data_cost)
+    ensures adm_from(cfg, outs.push(o), from)
+{
+    assert forall|k: int| from <= k < outs.push(o).len() implies value_size((#[trigger] outs.push(o)[k]).amount) <= cfg.max_value_size && outs.push(o)[k].amount.coin.0 >= spec_min_ada(outs.push(o)[k], cfg.data_cost) by {
+        if k < outs.len() { assert(outs.push(o)[k] == outs[k]); }
+    }
+}
+pub proof fn lemma_adm_last(cfg: TransactionBuilderConfig, outs: Seq<TransactionOutput>, outs2: Seq<TransactionOutput>, from: int)
+    requires adm_from(cfg, outs, from), from >= 0, outs.len() > 0, outs2.len() == outs.len(), outs2.drop_last() == outs.drop_last(),
+             value_size(outs2.last().amount) <= cfg.max_value_size, outs2.last().amount.coin.0 >= spec_min_ada(outs2.last(), cfg.data_cost)
+    ensures adm_from(cfg, outs2, from)
+{
+    assert forall|k: int| from <= k < outs2.len() implies value_size((#[trigger] outs2[k]).amount) <= cfg.max_value_size && outs2[k].amount.coin.0 >= spec_min_ada(outs2[k], cfg.data_cost) by {
+        if k < outs2.len() - 1 { assert(outs2[k] == outs2.drop_last()[k]); assert(outs[k] == outs.drop_last()[k]); }
+    }
+}
